@@ -58,7 +58,15 @@ func findMatches(insts []bytecode.SearchInstruction, all bool, skip int, take in
 		} else {
 			// fmt.Println("====== FAILED  ======")
 			if currentState.status == SUCCESS && len(currentState.currentMatch) != 0 {
+				// a skipped match still consumes its text: resume the scan at its end
 				matchNumber += 1
+				fileOffset = currentState.currentFileOffset
+				lineNumber = currentState.currentLineNum
+				columnNumber = currentState.currentColumnNum
+				if fileOffset >= reader.Size() {
+					break
+				}
+				continue
 			}
 			skipC := reader.ReadAt(1, fileOffset)
 			if len(skipC) != 1 {
